@@ -265,7 +265,7 @@ func oracle(ctx *hx.Ctx, idx int, h *hist, steps []step, cl string) {
 					consecNeg++
 				} else if rel < 0 && len(st.ids) > 0 {
 					// delivered although behind the head: only legitimate as a detected restart
-					if consecNeg+1 > B && len(st.ids) == 1 && st.ids[0] == p.id && st.lost == 0 && !bigB {
+					if consecNeg+1 > B && len(st.ids) == 1 && st.ids[0] == p.id && st.lost == 0 {
 						isReset = true
 						resetSeen = true
 						consecNeg = 0
@@ -276,7 +276,7 @@ func oracle(ctx *hx.Ctx, idx int, h *hist, steps []step, cl string) {
 				} else {
 					consecNeg = 0
 				}
-				if rel < 0 && len(st.ids) == 0 && consecNeg > B && !bigB {
+				if rel < 0 && len(st.ids) == 0 && consecNeg > B {
 					ctx.Failf(idx, "restart-not-detected", cl, "op %d: %d consecutive arrivals behind the head, none delivered (B=%d)", i, consecNeg, B)
 					return
 				}
@@ -327,12 +327,9 @@ func oracle(ctx *hx.Ctx, idx int, h *hist, steps []step, cl string) {
 				}
 				prev = s
 			}
-			if st.lost != skippedHere && !bigB {
+			if st.lost != skippedHere {
 				ctx.Failf(idx, "loss-mismatch", cl, "op %d: lost=%d but %d sequence numbers were skipped between consecutive deliveries", i, st.lost, skippedHere)
 				return
-			}
-			if bigB && st.lost != skippedHere {
-				extValid = false
 			}
 			if len(st.ids) > 0 {
 				// which stream positions were skipped by this step (ground truth) -> for the classifier
@@ -428,7 +425,8 @@ func oracle(ctx *hx.Ctx, idx int, h *hist, steps []step, cl string) {
 			}
 			switch {
 			case bigB:
-				ctx.Failf(idx, "bufsize-int16-overflow", cl, "packet id %d (stream position %d) arrived late by %d < B=%d and was never delivered: int16(len(buffer)) is negative for B=32768, every forward packet flushes", id, v[1], v[2], B)
+				// regression class of fix 9dc1449: before it, int16(len(buffer)) = -32768 made every forward packet flush
+				ctx.Failf(idx, "bufsize-int16-overflow", cl, "packet id %d (stream position %d) arrived late by %d < B=%d and was never delivered (BufferSize 32768: is the flush test comparing with int16(len(buffer)) again?)", id, v[1], v[2], B)
 			case afterFlush[id]:
 				ctx.Failf(idx, "late-after-flush", cl, "packet id %d (stream position %d) arrived late by %d < B=%d sequence positions and was dropped: an overflow flush had already skipped its number and counted it lost", id, v[1], v[2], B)
 			default:
@@ -452,6 +450,7 @@ func oracle(ctx *hx.Ctx, idx int, h *hist, steps []step, cl string) {
 				break
 			}
 			n++
+			// B = 32768: relPos (int16) never reaches B, the overflow flush is unreachable; restart_followed is stated for B <= 16384
 			if n >= B+1 && !bigB {
 				d := steps[i].last - p.seq
 				if int(d) >= B {
@@ -687,7 +686,8 @@ func corpusClamp(unrel bool) *hist {
 	return &hist{unrel: unrel, bs: 1, ops: g.ops, gen: "corpus 24-bit clamp"}
 }
 
-// B = 32768: int16(len(buffer)) = -32768, so "relPos >= int16(len)" holds for every forward packet.
+// B = 32768, regression for fix 9dc1449: before it int16(len(buffer)) = -32768 made "relPos >= int16(len)" hold for
+// every forward packet (102 below was dropped); now 102 is waited for and delivered in order.
 func corpusBigB() *hist {
 	g := &gen{}
 	for _, i := range []int{1, 3, 2, 4, 5} {
@@ -732,13 +732,13 @@ func evalHist(ctx *hx.Ctx, h *hist) {
 	oracle(ctx, idx, h, steps, cl)
 }
 
-// B = 32768 is evaluated by the oracle only: the list-based model needs O(B^2) steps per flush there.
-func evalBigB(ctx *hx.Ctx) {
-	h := corpusBigB()
-	_, steps, _ := runImpl(h)
-	ctx.Eval()
-	ctx.Kind("corpus B=32768 (oracle only)")
-	oracle(ctx, -1, h, steps, h.caseLine())
+// B = 32768 (regression for fix 9dc1449): a second, longer history with displacement and duplicates, no loss.
+func corpusBigB2(r *hx.Rand) *hist {
+	g := &gen{r: r}
+	g.perturb(65500, 0, 0, 80, 7, 0, 0, 10)
+	g.tailRun(65500, 0, 80, 6)
+	g.ops = append(g.ops, op{kind: 3, idx: -1}, op{kind: 2, idx: -1})
+	return &hist{unrel: true, bs: 32768, ops: g.ops, gen: "corpus B=32768 displaced"}
 }
 
 func replayLine(ctx *hx.Ctx, l string) {
@@ -786,7 +786,8 @@ func main() {
 	for _, s := range []uint16{0, 65533, 65531, 32766} {
 		evalHist(ctx, corpusF12(s))
 	}
-	evalBigB(ctx)
+	evalHist(ctx, corpusBigB())
+	evalHist(ctx, corpusBigB2(hx.NewRand(77)))
 	evalHist(ctx, corpusClamp(false))
 	evalHist(ctx, corpusClamp(true))
 	evalHist(ctx, makeHist(r, hDisplacedLoss, 65000, 1024))
